@@ -1,6 +1,7 @@
 package rules
 
 import (
+	"sort"
 	"fmt"
 	"go/types"
 	"strings"
@@ -1360,7 +1361,7 @@ func contradictory(d []Cond) bool {
 
 // ReachedWhen: the converse of OnlyWhen — some call to callee in fn is reached whenever cond (a conjunction
 // "a & b") holds and the function has not failed: there is a feasible path to the call on which every branch fact
-// is one of cond's conjuncts or an `err == nil` check. Together with OnlyWhen this makes the call happen exactly
+// is one of cond's conjuncts, an `err == nil` check, or the surviving side of a branch whose other side only fails. Together with OnlyWhen this makes the call happen exactly
 // under cond.
 func (c *Ctx) ReachedWhen(fnSpec, callee, cond, desc string) {
 	role := "reachedwhen/" + callee + "/" + cond
@@ -1379,31 +1380,53 @@ func (c *Ctx) ReachedWhen(fnSpec, callee, cond, desc string) {
 		conj = append(conj, ParseCond(strings.TrimSpace(cj)))
 	}
 	errNil := ParseCond("eq(_,nil)")
+	// facts that every successful run establishes anyway: the surviving side of a branch whose other side only fails
+	needed := map[string]bool{}
+	for _, b := range f.Fn.Blocks {
+		iff, ok := b.Instrs[len(b.Instrs)-1].(*ssa.If)
+		if !ok || len(b.Succs) != 2 {
+			continue
+		}
+		ft, fe := !f.CanSucceed(b.Succs[0]), !f.CanSucceed(b.Succs[1])
+		if ft == fe {
+			continue
+		}
+		for _, alt := range expandCond(f, iff.Cond, fe, 0) {
+			for _, cd := range alt {
+				needed[cd.String()] = true
+			}
+		}
+	}
 	var seen []string
 	for _, call := range calls {
+		// residual facts of every feasible path to the call, after dropping the condition's conjuncts and the facts
+		// every successful run establishes anyway; the call is reached under the condition iff their disjunction is
+		// a tautology (decided by merging disjuncts that differ in one literal's polarity)
+		var resid []map[string]bool
 		for _, d := range guardDisjuncts(f, call.Block(), 0) {
 			if contradictory(d) {
 				continue
 			}
-			ok := true
+			r := map[string]bool{}
 			var ds []string
 			for _, cd := range d {
 				ds = append(ds, cd.String())
-				m := MatchCond(errNil, cd)
+				m := MatchCond(errNil, cd) || needed[cd.String()]
 				for _, pc := range conj {
 					if MatchCond(pc, cd) {
 						m = true
 					}
 				}
 				if !m {
-					ok = false
+					r[cd.String()] = true
 				}
 			}
 			seen = append(seen, "["+strings.Join(ds, " ∧ ")+"]")
-			if ok {
-				c.add("G", fnSpec, role, desc, report.OK, short(strings.Join(ds, " ∧ ")), c.posOf(call))
-				return
-			}
+			resid = append(resid, r)
+		}
+		if tautology(resid) {
+			c.add("G", fnSpec, role, desc, report.OK, fmt.Sprintf("%d path(s), jointly unconditional under the condition", len(resid)), c.posOf(call))
+			return
 		}
 	}
 	c.add("G", fnSpec, role, desc, report.Violated, "every path to the call needs more than the condition: "+short(strings.Join(seen, " ∨ ")), c.posOf(calls[0]))
@@ -1564,4 +1587,84 @@ func (c *Ctx) VarUpdatedWhen(fnSpec, v, pattern, cond, desc string) {
 		return
 	}
 	c.add("P", fnSpec, role, desc, report.OK, fmt.Sprintf("%d assignment edge(s)", n), c.fnPos(f))
+}
+
+// tautology: the disjunction of the conjunctions (sets of literals "x" / "!x") is valid. Decided by saturation with
+// the consensus rule on literals of opposite polarity, bounded; incomplete only in the "cannot show" direction.
+func tautology(ds []map[string]bool) bool {
+	neg := func(l string) string {
+		if strings.HasPrefix(l, "!") {
+			return l[1:]
+		}
+		return "!" + l
+	}
+	key := func(m map[string]bool) string {
+		var ks []string
+		for k := range m {
+			ks = append(ks, k)
+		}
+		sort.Strings(ks)
+		return strings.Join(ks, " ∧ ")
+	}
+	have := map[string]bool{}
+	var set []map[string]bool
+	add := func(m map[string]bool) bool {
+		k := key(m)
+		if have[k] {
+			return false
+		}
+		have[k] = true
+		set = append(set, m)
+		return true
+	}
+	for _, d := range ds {
+		add(d)
+	}
+	for round := 0; round < 6; round++ {
+		for _, m := range set {
+			if len(m) == 0 {
+				return true
+			}
+		}
+		changed := false
+		n := len(set)
+		for i := 0; i < n && len(set) < 400; i++ {
+			for j := i + 1; j < n && len(set) < 400; j++ {
+				x, y := set[i], set[j]
+				// consensus: x = A ∧ l, y = B ∧ ¬l  ⇒  A ∧ B (only when A ∧ B has no other clash)
+				for l := range x {
+					if !y[neg(l)] {
+						continue
+					}
+					m := map[string]bool{}
+					clash := false
+					for k := range x {
+						if k != l {
+							m[k] = true
+						}
+					}
+					for k := range y {
+						if k != neg(l) {
+							if m[neg(k)] {
+								clash = true
+							}
+							m[k] = true
+						}
+					}
+					if !clash && add(m) {
+						changed = true
+					}
+				}
+			}
+		}
+		if !changed {
+			break
+		}
+	}
+	for _, m := range set {
+		if len(m) == 0 {
+			return true
+		}
+	}
+	return false
 }
